@@ -94,6 +94,16 @@ def baseline_functions():
     return _BASELINE
 
 
+def _out_param(p):
+    t = p.get("t") or {}
+    return bool(t.get("ref")) and not (t.get("s") or "").startswith("const ") and t.get("k") in ("int", "bool", "enum", "float", "ptr")
+
+
+def _plain_lvalue(a):
+    a = strip_all_casts(a) if isinstance(a, dict) else {}
+    return a.get("k") == "ref" and a.get("dk") in ("local", "param")
+
+
 def _candidate(fb, g, vocab):
     if g is None or g.body is None or not g.cfg_raw or not g.raw.get("inrepo") or g.raw.get("templated") or g.raw.get("virtual"):
         return False
@@ -111,8 +121,8 @@ def _candidate(fb, g, vocab):
             return False
         if x.get("k") in ("lambda", "try", "goto", "label"):
             return False
-    # parameters are only read
-    pd = {p["decl"] for p in g.params}
+    # parameters are only read (a non-const reference parameter may be written: its argument has to be a plain variable, see _sites)
+    pd = {p["decl"] for p in g.params if not _out_param(p)}
     for x in g.nodes():
         if x.get("k") in ("assign", "cassign") and strip_all_casts(x["l"]).get("decl") in pd:
             return False
@@ -158,6 +168,9 @@ def inline_private_helpers(fb, max_rounds=2):
                 if len(args) != len(g.params) or not all(_pure_arg(a) for a in args):
                     ok = False
                     break
+                if any(_out_param(p) and not _plain_lvalue(a) for p, a in zip(g.params, args)):
+                    ok = False
+                    break
                 shape = _site_shape(f, c)
                 if shape is None:
                     ok = False
@@ -195,6 +208,7 @@ def _splice(fb, f, call, shape, g, k):
     void = rett.get("k") == "void"
     tmp_decl = "%sret" % pref
     argmap = {p["decl"]: a for p, a in zip(g.params, call.get("args", []))}
+    outp = {p["decl"] for p in g.params if _out_param(p)}
     idmap = {}
 
     def clone(z):
@@ -202,6 +216,15 @@ def _splice(fb, f, call, shape, g, k):
             return [clone(w) for w in z]
         if not isinstance(z, dict):
             return z
+        if z.get("k") == "ref" and z.get("decl") in outp:
+            # reference parameter bound to a plain variable: the variable itself
+            out = copy.deepcopy(strip_all_casts(argmap[z["decl"]]))
+            out["id"] = base + z.get("id", 0)
+            out["inl_param"] = z["decl"]
+            idmap[z.get("id")] = out["id"]
+            if z.get("loc"):
+                out["loc"] = z["loc"]
+            return out
         if z.get("k") == "ref" and z.get("decl") in argmap:
             a = copy.deepcopy(argmap[z["decl"]])
             _renumber(a, base + 500000 + len(idmap) * 64)
@@ -447,4 +470,107 @@ def alias_staging_buffers(fb):
                 done += 1
                 break
     fb.staging_aliases = done
+    return done
+
+
+# ---------------------------------------------------------------------------------------------------------------------------------------
+# Scalar replacement of a read-only local aggregate: `const Fields f{a(), b()};  ... f.x ... f.y ...` in a function that changes nothing
+# reads the same as `... a() ... b() ...`.  Lets rules that follow a header getter into a comparison see through "read the fields into a
+# small struct first".
+
+def _readonly_function(fb, f):
+    for x in f.nodes():
+        k = x.get("k")
+        if k in ("assign", "cassign"):
+            l = strip_all_casts(x["l"])
+            if not (l.get("k") == "ref" and l.get("dk") == "local"):
+                return False
+        if k == "un" and x.get("op") in ("pre++", "post++", "pre--", "post--"):
+            l = strip_all_casts(x["e"])
+            if not (l.get("k") == "ref" and l.get("dk") == "local"):
+                return False
+        if k in ("lambda", "new", "delete", "throw"):
+            return False
+        if k == "call":
+            c = x.get("callee") or {}
+            g = fb.resolve_call(x)
+            if c.get("const") or x.get("op") is not None:
+                continue
+            if g is not None and g.raw.get("inrepo") and (g.raw.get("static") or not g.rec):
+                # a free / static helper: fine when it takes no mutable pointer or reference
+                if all((p["t"].get("k") != "ptr" or p["t"].get("pconst")) and not _out_param(p) for p in g.params):
+                    continue
+            if c.get("name") in ("std::min", "std::max", "std::move", "std::forward", "std::distance"):
+                continue
+            return False
+    return True
+
+
+def scalarise_aggregates(fb):
+    done = 0
+    for f in list(fb.functions.values()):
+        if not f.raw.get("inrepo") or f.body is None or f.raw.get("templated"):
+            continue
+        cands = []
+        for s in f.nodes():
+            if s.get("k") != "decl":
+                continue
+            for v in s.get("vars", []):
+                init = v.get("init")
+                if not isinstance(init, dict) or v.get("static"):
+                    continue
+                c = strip_all_casts(init)
+                while c.get("k") in ("exprwithcleanups", "temp", "bindtemp") and isinstance(c.get("e"), dict):
+                    c = strip_all_casts(c["e"])
+                while c.get("k") == "construct" and (c.get("copy") or c.get("move") or c.get("elidable")) and len(c.get("args", [])) == 1:
+                    c = strip_all_casts(c["args"][0])
+                    while c.get("k") in ("exprwithcleanups", "temp", "bindtemp") and isinstance(c.get("e"), dict):
+                        c = strip_all_casts(c["e"])
+                if c.get("k") == "initlist" and c.get("rec") and isinstance(c.get("inits"), list):
+                    cands.append((v, c))
+        if not cands or not _readonly_function(fb, f):
+            continue
+        for v, c in cands:
+            try:
+                rec = fb.record(c["rec"])
+            except Exception:
+                continue
+            fields = [fl["qname"] for fl in rec.get("fields", [])]
+            if rec.get("bases") or len(fields) != len(c["inits"]) or not all(_pure_arg(e) for e in c["inits"]):
+                continue
+            V = v["decl"]
+            uses = [x for x in f.nodes() if x.get("k") == "ref" and x.get("decl") == V]
+            members = [x for x in f.nodes() if x.get("k") == "member" and strip_all_casts(x.get("base") or {}).get("decl") == V and
+                       strip_all_casts(x.get("base") or {}).get("k") == "ref"]
+            if not uses or len(uses) != len(members) or any(m.get("field") not in fields for m in members):
+                continue
+            # the variables the initialisers read keep their value: never assigned in this function
+            rd = {x.get("decl") for e in c["inits"] for x in walk(e) if x.get("k") == "ref" and x.get("dk") in ("local", "param")}
+            assigned = set()
+            for x in f.nodes():
+                if x.get("k") in ("assign", "cassign"):
+                    assigned.add(strip_all_casts(x["l"]).get("decl"))
+                if x.get("k") == "un" and x.get("op") in ("pre++", "post++", "pre--", "post--"):
+                    assigned.add(strip_all_casts(x["e"]).get("decl"))
+            if rd & assigned:
+                continue
+            nid = max([x.get("id", 0) for x in f.nodes() if isinstance(x.get("id"), int)] + [0]) + 5000
+            for m in members:
+                e = copy.deepcopy(c["inits"][fields.index(m["field"])])
+                for x in walk(e):
+                    if "id" in x:
+                        nid += 1
+                        x["id"] = nid
+                mid, loc, t = m.get("id"), m.get("loc"), m.get("t")
+                m.clear()
+                m.update({"k": "cast", "ck": "NoOp", "id": mid, "t": t or e.get("t"), "e": e, "scalarised": v.get("name")})
+                if loc:
+                    m["loc"] = loc
+            f._nodes = None
+            f._parent = None
+            for attr in ("_local_defs_cache",):
+                if hasattr(f, attr):
+                    delattr(f, attr)
+            done += 1
+    fb.scalarised = done
     return done
